@@ -1,7 +1,7 @@
 (* C06 — property theorems only.  Each is closed by [exact] of a lemma from the
    proof files; the driver pins the statements with [Check] and prints the
    assumptions on every run. *)
-From Yv Require Import Common.Base C06.Model C06.Spec C06.SpecCmd C06.Proofs.
+From Yv Require Import Common.Base C06.Model C06.Spec C06.SpecCmd C06.SpecCompound C06.Proofs.
 From Coq Require Ascii String.
 Import Coq.Strings.String.StringSyntax.
 
@@ -158,6 +158,21 @@ Proof. exact command_print_lemma. Qed.
 Theorem parse_print_simple_lists : forall s l,
   parse_program s = Ok l -> clean_list l -> parse_program (print_list false l) = Ok l.
 Proof. exact parse_print_simple_lists_lemma. Qed.
+
+(* parse_print_list for lists with groupings, subshells and while/until loops:
+   the commands of the pipelines may also be groupings `{ ...; }`, subshells
+   `( ... )` and loops `while ...; do ...; done` / `until ...; do ...; done`
+   without redirections of their own, whose bodies and conditions are again
+   such lists, to any depth.
+   [clean_list_n n] describes these trees level by level ([n] levels of
+   nesting; [clean_n] in SpecCompound.v); the statement holds for every [n],
+   so for every such tree.  Covers the alternate form of Display for List
+   inside `{ }` and between `while` / `do` / `done` (every item carries its
+   `;` or `&`), `&)` and `;` before ` }`, `! ` before `{`, `(` and `while`,
+   and `((`. *)
+Theorem parse_print_compound_lists : forall s l n,
+  parse_program s = Ok l -> clean_list_n n l -> parse_program (print_list false l) = Ok l.
+Proof. exact parse_print_compound_lists_lemma. Qed.
 
 (* operator spacing: an operator is read back from its text whenever the next
    character does not turn it into a longer operator *)
